@@ -1,0 +1,5 @@
+//go:build !verif
+
+package asm
+
+func verifTrace(gen interface{}, phase, key string) {}
